@@ -542,6 +542,15 @@ func (t *genTable[Obj]) CompareAndDelete(txn WriteTxn, rev Revision, obj Obj) (o
 
 func (t *genTable[Obj]) DeleteAll(txn WriteTxn) error {
 	itxn := txn.unwrap()
+	// Check the transaction before reading through it: All() needs an open
+	// transaction that contains the table, and an empty table would otherwise
+	// not reach the checks made by delete().
+	if itxn == nil {
+		return ErrTransactionClosed
+	}
+	if !itxn.holds(t) || !itxn.tableEntries[t.pos].locked {
+		return tableError(t.table, ErrTableNotLockedForWriting)
+	}
 	for obj := range t.All(txn) {
 		_, _, err := itxn.delete(t, noGuard, obj)
 		if err != nil {
